@@ -5,17 +5,22 @@
 
 namespace c09 {
 using namespace life;
-enum Shape { SUM_LL, SUM_LR, SUM_RL, SUM_RR, DIFF_LL, DIFF_RL, NEG_L, NEG_R, MUL_L, MUL_R, LMUL_L, LMUL_R, COMM, ACOMM, EVOLVE, FASTEVOLVE, EW_LL, EW_RL, EW_LR, EW_RR, NSHAPE };
+enum Shape { SUM_LL, SUM_LR, SUM_RL, SUM_RR, DIFF_LL, DIFF_RL, NEG_L, NEG_R, MUL_L, MUL_R, LMUL_L, LMUL_R, COMM, ACOMM, EVOLVE, FASTEVOLVE, EW_LL, EW_RL, EW_LR, EW_RR,
+             DIFF_LR, DIFF_RR, COMM_RL, COMM_LR, ACOMM_RL, ACOMM_LR, EVOLVE_R, FASTEVOLVE_R, NSHAPE };
 static const char* shape_name[] = {"a+b", "a+move(b)", "move(a)+b", "move(a)+move(b)", "a-b", "move(a)-b", "-a", "-move(a)", "a*s", "move(a)*s", "s*a", "s*move(a)",
-                                   "iCommutator(a,b)", "ACommutator(a,b)", "a.Evolve(h,t)", "a.Evolve(table)", "EW(a,b)", "EW(move(a),b)", "EW(a,move(b))", "EW(move(a),move(b))"};
+                                   "iCommutator(a,b)", "ACommutator(a,b)", "a.Evolve(h,t)", "a.Evolve(table)", "EW(a,b)", "EW(move(a),b)", "EW(a,move(b))", "EW(move(a),move(b))",
+                                   "a-move(b)", "move(a)-move(b)", "iCommutator(move(a),b)", "iCommutator(a,move(b))", "ACommutator(move(a),b)", "ACommutator(a,move(b))", "move(a).Evolve(h,t)", "move(a).Evolve(table)"};
 enum Form { F_ASSIGN, F_ADD, F_SUB, F_CONSTRUCT, NFORM };
 static const char* form_name[] = {"v=", "v+=", "v-=", "SU_vector v("};
 static const unsigned Gsets[] = {0, 1, 2, 3, 7};  // none, NoAlias, EqualSizes, NoAlias|EqualSizes, all three
 
-inline bool binary(int s) { return s <= DIFF_RL || s == COMM || s == ACOMM || s >= EW_LL; }
-inline bool a_rvalue(int s) { return s == SUM_RL || s == SUM_RR || s == DIFF_RL || s == NEG_R || s == MUL_R || s == LMUL_R || s == EW_RL || s == EW_RR; }
-inline bool b_rvalue(int s) { return s == SUM_LR || s == SUM_RR || s == EW_LR || s == EW_RR; }
-inline bool elementwise(int s) { return s != COMM && s != ACOMM && s != EVOLVE && s != FASTEVOLVE; }
+inline bool binary(int s) { return s <= DIFF_RL || s == COMM || s == ACOMM || (s >= EW_LL && s <= ACOMM_LR); }
+// operands passed as rvalues; for the first eight shapes of each kind the library has a dedicated overload that may
+// take the operand's storage, for the others (from DIFF_LR on) it has none and must leave the operand untouched
+inline bool a_rvalue(int s) { return s == SUM_RL || s == SUM_RR || s == DIFF_RL || s == NEG_R || s == MUL_R || s == LMUL_R || s == EW_RL || s == EW_RR || s == DIFF_RR || s == COMM_RL || s == ACOMM_RL || s == EVOLVE_R || s == FASTEVOLVE_R; }
+inline bool b_rvalue(int s) { return s == SUM_LR || s == SUM_RR || s == EW_LR || s == EW_RR || s == DIFF_LR || s == DIFF_RR || s == COMM_LR || s == ACOMM_LR; }
+inline bool elementwise(int s) { return !(s == COMM || s == ACOMM || s == EVOLVE || s == FASTEVOLVE || (s >= COMM_RL && s <= FASTEVOLVE_R)); }
+inline int base_shape(int s) { switch (s) { case DIFF_LR: case DIFF_RR: return DIFF_LL; case COMM_RL: case COMM_LR: return COMM; case ACOMM_RL: case ACOMM_LR: return ACOMM; case EVOLVE_R: return EVOLVE; case FASTEVOLVE_R: return FASTEVOLVE; default: return s; } }
 inline double uop(double x, double y) { return x * y - 0.5 * x; }
 
 struct Setup {
